@@ -149,6 +149,25 @@ CATALOGUE = [
     ('c18_export_swallows_oserror', 'C18', 'gearpy/utils/export.py',
      "    data.to_csv(file_path, index=False)",
      "    try:\n        data.to_csv(file_path, index=False)\n    except OSError:\n        pass"),
+    # ---- C13
+    ('c13_negative_branch_removed', 'C13', S,
+     "            (motor.pwm > 0 and motor.angular_speed < NULL_ANGULAR_SPEED) or\n            (motor.pwm < 0 and motor.angular_speed > NULL_ANGULAR_SPEED)\n",
+     "            (motor.pwm > 0 and motor.angular_speed < NULL_ANGULAR_SPEED)\n"),
+    ('c13_never_released', 'C13', S,
+     "                self.__powertrain_is_locked = False\n\n    def _compute_locked",
+     "                pass\n\n    def _compute_locked"),
+    ('c13_self_locking_guard_dropped', 'C13', S,
+     "        if self.__powertrain.self_locking and (\n",
+     "        if (\n"),
+    ('c13_acceleration_not_zeroed', 'C13', S,
+     "            element.angular_speed = NULL_ANGULAR_SPEED\n            element.angular_acceleration = NULL_ANGULAR_ACCELERATION",
+     "            element.angular_speed = NULL_ANGULAR_SPEED"),
+    ('c13_release_on_any_positive_duty', 'C13', S,
+     "            if (motor.torque > NULL_TORQUE and motor.pwm > 0) or \\",
+     "            if (motor.pwm > 0) or \\"),
+    ('c13_zero_duty_not_locking', 'C13', S,
+     "            motor.pwm == 0 or\n",
+     ""),
 ]
 
 
